@@ -24,7 +24,13 @@ for ID in "$@"; do
   KEY=$(echo "$OUT" | grep -A1 "^VIOLATION" | grep -m1 "key=" | sed 's/^ *//' | cut -c1-200)
   case $RC in
     0) echo "MISSED  $ID  $(echo "$OUT" | tail -1 | cut -c1-120)";;
-    1) echo "CAUGHT  $ID  $KEY";;
+    1) echo "CAUGHT  $ID  $KEY"
+       # SAVE_CORPUS=<name>: keep the (shrunk) failing case as a regression case that every later
+       # run of the check replays first (on the unchanged tree it must pass)
+       if [ -n "${SAVE_CORPUS:-}" ]; then
+         RP=$(echo "$OUT" | grep -m1 "^VIOLATION" | sed 's/.*replay=//')
+         if [ -f "$RP" ] && [ "${RP##*.}" = json ]; then mkdir -p /verif/corpus/$ID; cp "$RP" /verif/corpus/$ID/$SAVE_CORPUS.json; fi
+       fi;;
     *) echo "INCONCLUSIVE($RC) $ID $(echo "$OUT" | tail -2 | tr '\n' ' ' | cut -c1-200)";;
   esac
 done
